@@ -76,6 +76,9 @@ CHECKS = {
              "variant": "race", "shards": {"quick": 4, "thorough": 16}, "timeout": {"quick": 900, "thorough": 5400},
              "env": {"VERIF_RIGRACE": "1", "VERIF_TIER": "quick"}, "only_property_failures": True, "tiers": ["thorough"],
              "checks": ["c16-rig-race"]},
+            {"name": "c16up", "run": "^TestC07_Upgrade$", "shards": {"quick": 8, "thorough": 16},
+             "timeout": {"quick": 900, "thorough": 3000}, "env": {"VERIF_AS": "C16"},
+             "checks": ["c16-send-during-upgrade"]},
         ],
     },
     "C17": {
